@@ -70,7 +70,7 @@ CHECKS = {
    note="Trusted base: vlib/urlref.split. Empty password/query/fragment == absent.",
    design="§4 C12"),
  "C13": dict(
-   technique="exhaustive pairwise enumeration over a URL universe against an independent 'lies under' predicate (reference PSL for suffix-aware chains)",
+   technique="exhaustive pairwise enumeration over a URL universe against an independent 'lies under' predicate (reference PSL for suffix-aware chains), plus enumerated pairs evaluated after earlier calls in the other mode (cross-call state), descendants with userinfo and IP-literal hosts",
    text="All ordered pairs of a 1,792-URL (quick) / 7,128-URL (thorough) universe x suffix_aware: forward (under => stems prefix and string prefix), converse (prefix => under) and equivalence of string-prefix and raw stem-prefix. Exhaustive for the universe.",
    note="Trusted base: under() on reference-split components; vlib/pslref.py over the bundled list for suffix-aware host units.",
    design="§4 C13"),
@@ -85,7 +85,7 @@ CHECKS = {
    note="Trusted base: brute-force set model (suffix-wise ancestor test, minimal cover).",
    design="§4 C09"),
  "C01": dict(
-   technique="property-based testing: structured URL grammar (Hypothesis) + exhaustive token sweep, reference RFC-3986 parser/byte decoder as oracle",
+   technique="property-based testing: structured URL grammar (Hypothesis) + exhaustive token sweep + enumerated edge-whitespace panel, reference RFC-3986 parser/byte decoder as oracle (the result re-read as given and after trimming)",
    text="Generated-input search: every token class in every component, exhaustive single-token (quick) / token-pair (thorough) sweep over six positions, random structures; input and output are both reduced to a semantic normal form by an independent parser and compared component-wise. Exploration, exhaustive only for the sweep bounds.",
    note="Trusted base: vlib/urlref.py (RFC 3986 regex splitter, cross-checked against urllib.parse.urlsplit on every input; single-pass byte decoder; stdlib punycode codec). Leniencies listed in evidence.assumptions.",
    design="§4 C01"),
